@@ -3,6 +3,7 @@ open Ndn Ndn.Driver Ndn.C03 Ndn.C03.Text Ndn.C03.Drv
 
 structure St where
   last : Option Mk := none
+  mkExpected : Option String := none   -- the model's prediction for the make op (compared at `cmp`)
 
 /-- the SignatureType a shipped validator insists on, by signer token -/
 def validatorType (tok : String) : Option Nat :=
@@ -60,14 +61,18 @@ def stepC12 (st : St) (op : String) (got : String) : StepResult St :=
   | ["new"] => { st := {}, expected := some "ok" }
   | "mkd" :: _ =>
     let r := runMkd f got
-    { st := { last := r.built }, expected := some r.expected, cov := r.cov,
+    { st := { last := r.built, mkExpected := some r.expected }, expected := none, cov := r.cov,
       spec := r.spec.filter (fun s => s.clause == "builds" || s.clause == "no-panic"),
       nontrivial := (r.built.map (·.signed)).getD false }
   | "mki" :: _ =>
     let r := runMki f got
-    { st := { last := r.built }, expected := some r.expected, cov := r.cov,
+    { st := { last := r.built, mkExpected := some r.expected }, expected := none, cov := r.cov,
       spec := r.spec.filter (fun s => s.clause == "builds" || s.clause == "no-panic"),
       nontrivial := (r.built.map (fun m => m.signed || m.hasParams)).getD false }
+  | ["cmp"] =>
+    match st.mkExpected with
+    | none => { st := st, expected := some "skip" }
+    | some e => { st := st, expected := some e }
   | ["val", cuts] =>
     match st.last with
     | none => { st := st, expected := some "skip" }
